@@ -80,6 +80,19 @@ Theorem C05_edit_refines_buffer_punct :
 Proof. exact edit_refines_buffer_punct. Qed.
 Print Assumptions C05_edit_refines_buffer_punct.
 
+(** round 4: [edit_cfg] also admits ascii_composer in front of the processors and ascii_segmentor in front of the
+    segmentors (their stock positions).  The instance: the punctuator chain with both, every mode-switch style bound *)
+Theorem C05_edit_refines_buffer_ascii :
+  forall (fluid dlog : bool) (translate : bytes -> seginfo -> list cand) (keys : list ekey),
+    Forall (fun k => ekey_ok (synth_acedit_cfg fluid dlog) k = true) keys ->
+    let r := run (synth_acedit_cfg fluid dlog) translate (map op_of_ekey keys) in
+    cx_input (st_ctx (fst r)) = b_text (buf_run keys) /\
+    cx_caret (st_ctx (fst r)) = b_caret (buf_run keys) /\
+    st_commit (fst r) = [] /\
+    map edit_summary (snd r) = map (fun x => Some (x, [])) (buf_trace buf_empty keys).
+Proof. exact edit_refines_buffer_ascii. Qed.
+Print Assumptions C05_edit_refines_buffer_ascii.
+
 (** Non-vacuity: a concrete history over the whole alphabet, run on the model
     with the oracle translator, walks through a non-trivial buffer. *)
 Definition c05_example_keys : list ekey :=
@@ -103,4 +116,12 @@ Theorem C05_punct_example :
         (snd (run (synth_punct_cfg true true) (synth_translate (synth_punct_cfg true true)) (map op_of_ekey c05_example_keys))).
 Proof. split; [apply synth_punct_edit_cfg | vm_compute; reflexivity]. Qed.
 Print Assumptions C05_punct_example.
+
+Theorem C05_ascii_example :
+  edit_cfg (synth_acedit_cfg false true) /\
+  map (fun x => snd (fst x)) (buf_trace buf_empty c05_example_keys) =
+    map (fun o => match edit_summary o with Some (_, t, _, _) => t | None => [x00] end)
+        (snd (run (synth_acedit_cfg false true) (synth_translate (synth_acedit_cfg false true)) (map op_of_ekey c05_example_keys))).
+Proof. split; [apply synth_acedit_edit_cfg | vm_compute; reflexivity]. Qed.
+Print Assumptions C05_ascii_example.
 
